@@ -164,6 +164,44 @@ def pathItemS (p : PathItem) : List String := [toHex p.1, toString p.2.1, toStri
 
 def invOf (n : Nat) : Invalid := if n = 0 then .null else if n = 1 then .uninit else .bufferOverflow
 
+/-- one translation unit of the `wp` op: hash, CTU info, buffer lists, classes, null-pointer list, uninit list, unused-function effects -/
+def pWpTU : P (Nat × TUSummary × Cppcheck.Unused.TU) := fun ws => do
+  let (h, r) ← pNat ws
+  let (fi, r) ← pFI r
+  let (a, r) ← pList pUU r
+  let (b, r) ← pList pUU r
+  let (cds, r) ← pList pCD r
+  let (np, r) ← pList pUU r
+  let (un, r) ← pList pUU r
+  let (nd, r) ← pNat r
+  let (ds, r) ← Cppcheck.Unused.pDecls nd r
+  let (ncl, r) ← pNat r
+  let (cs, r) ← Cppcheck.Unused.pCalls ncl r
+  pure ((h, ⟨fi, ⟨a, b⟩, cds, np, un⟩, ⟨ds, cs⟩), r)
+
+def wpS (wp : WholeProgram) : String :=
+  "ctu:" ++ sp (fiS wp.ctu)
+    ++ "|buf:" ++ ",".intercalate (wp.buffer.map fun b => toHex b.toStr)
+    ++ "|cls:" ++ ",".intercalate (wp.classes.map fun l => toHex (classListStr l))
+    ++ "|np:" ++ ",".intercalate (wp.nullPointer.map fun l => toHex (unsafeListStr l))
+    ++ "|un:" ++ ",".intercalate (wp.uninitVar.map fun l => toHex (unsafeListStr l))
+
+/-- op `wp`: the objects of the main theorem, executed: cache files of all translation units (six `<FileInfo>` elements each),
+    `fromBuildDir` on them, `inMemory` on the summaries, the unused-function handler on the same files -/
+def wpStep (l : List (Nat × TUSummary × Cppcheck.Unused.TU)) : String :=
+  let files := l.map fun x => Cppcheck.Unused.storeAll idSimp x.1 x.2.1 x.2.2
+  let w := match fromBuildDir files WholeProgram.empty with
+    | some wp => wpS wp
+    | none => "none"
+  let i := wpS (inMemory (l.map (·.2.1)))
+  let b := match Cppcheck.Unused.collectFiles files with
+    | .ok c => ",".intercalate (Cppcheck.Unused.sortS ((Cppcheck.Unused.checkCollected Cppcheck.Unused.isMain c).map Cppcheck.Unused.findingS))
+    | .threw => "threw"
+  let p := l.map fun x =>
+    toString x.1 ++ ":" ++ ";".intercalate ((x.2.1.infos idSimp ++ [("CheckUnusedFunctions".toList, Cppcheck.Unused.analyzerInfo x.2.2)]).map
+      fun ct => toHex ct.1 ++ "=" ++ toHex ct.2)
+  s!"W={w} I={i} B={b} P={",".intercalate p}"
+
 def step (line : String) : String :=
   match fields line with
   | ["esc", s] =>
@@ -274,6 +312,13 @@ def step (line : String) : String :=
         sp ([toString items.length] ++ items.flatMap pathItemS)
       | _ => "bad-op"
     | _, _, _, _ => "bad-op"
+  | "wp" :: n :: r =>
+    match n.toNat? with
+    | some n =>
+      match pMany pWpTU n r with
+      | some (l, []) => wpStep l
+      | _ => "bad-op"
+    | none => "bad-op"
   | "unused" :: r => Cppcheck.Unused.driverStep r
   | _ => "bad-op"
 
